@@ -92,30 +92,36 @@ Theorem C20_farm_rewards_total : forall f blk x a b, FarmInv.MI f -> exists v, Q
 Proof. exact FarmQ.calc_rewards_total. Qed.
 Print Assumptions C20_farm_rewards_total.
 
-(** ------------------------------------------------------------------ farm-staking.
-    FULL statement (refuted, finding F3):
-      forall s blk ep c x arps b s' nn paid, QStk.claim s blk ep c x arps b = Ok (s', [nn; x; paid]) ->
-        QStk.calc_rewards s blk x arps = Ok paid.
-    Proved instead: the view is the BASE part of the payment in every state; the rest is exactly the
-    claimer's boosted reward [b] (so quote = payment iff b = 0); missing for the full statement: the
-    view would have to add boosted(claimer), but it evaluates boosted(zero address) = 0. *)
-Theorem C20_staking_rewards_partial : forall s blk ep c x arps b s' o,
-  QStk.claim s blk ep c x arps b = Ok (s', o) ->
-  exists base nn, QStk.calc_rewards s blk x arps = Ok base /\ o = [nn; x; base + b] /\ 0 <= b.
-Proof. exact StkQ.staking_rewards_base. Qed.
-Print Assumptions C20_staking_rewards_partial.
+(** ------------------------------------------------------------------ farm-staking (after /repo e810a71, former finding F3).
+    calculateRewardsForGivenPosition(amount, attributes, opt_user): user = opt_user, else attributes.original_owner.
+    [bo u] is the boosted amount of user [u] in this state (input, assumption A-C20-BOOSTED; nothing is
+    assumed about its values, in particular not that it is 0).
+    The quote with the claimer passed explicitly - and the quote without the argument when the claimer is
+    the recorded original owner - is exactly the reward claimRewards pays, in every state.
+    search focus: claims in the week after energy was registered (boosted > 0), transferred positions *)
+Theorem C20_staking_rewards : forall s blk ep c x arps bo s' o,
+  QStk.claim s blk ep c x arps bo = Ok (s', o) ->
+  exists nn v,
+    o = [nn; x; v] /\
+    (forall owner, QStk.calc_rewards s blk x arps owner (Some c) bo = Ok v) /\
+    QStk.calc_rewards s blk x arps c None bo = Ok v.
+Proof. exact StkQ.staking_rewards_exec. Qed.
+Print Assumptions C20_staking_rewards.
 
-Theorem C20_staking_difference : forall s blk ep c x arps b s' nn amt paid v,
-  QStk.claim s blk ep c x arps b = Ok (s', [nn; amt; paid]) -> QStk.calc_rewards s blk x arps = Ok v ->
-  paid - v = b /\ 0 <= b /\ amt = x.
-Proof. exact StkQ.staking_difference. Qed.
-Print Assumptions C20_staking_difference.
+(** nothing hidden: WITHOUT the argument, on a position whose recorded owner is not the claimer (a
+    transferred position), the view adds the OWNER's boosted part; quote and payment then differ by
+    exactly boosted(claimer) - boosted(owner) and agree iff those two amounts are equal *)
+Theorem C20_staking_default_user : forall s blk ep c x arps owner bo s' nn amt paid v,
+  QStk.claim s blk ep c x arps bo = Ok (s', [nn; amt; paid]) ->
+  QStk.calc_rewards s blk x arps owner None bo = Ok v ->
+  paid - v = bo c - bo owner /\ (owner = c -> v = paid) /\ (v = paid <-> bo owner = bo c).
+Proof. exact StkQ.staking_default_user. Qed.
+Print Assumptions C20_staking_default_user.
 
-Theorem C20_staking_refuted :
-  exists s blk ep c x arps b s' nn v paid,
-    QStk.claim s blk ep c x arps b = Ok (s', [nn; x; paid]) /\ QStk.calc_rewards s blk x arps = Ok v /\ v <> paid.
-Proof. exact StkQ.staking_refuted. Qed.
-Print Assumptions C20_staking_refuted.
+Theorem C20_staking_rewards_refuses : forall s blk ep c x arps owner ou bo er,
+  QStk.calc_rewards s blk x arps owner ou bo = Err er -> is_ok (QStk.claim s blk ep c x arps bo) = false.
+Proof. exact StkQ.staking_rewards_err. Qed.
+Print Assumptions C20_staking_rewards_refuses.
 
 (** ------------------------------------------------------------------ energy factory: getPenaltyAmount.
     unlockEarly: quote(amount, remaining epochs, 0) = locked amount parked - base asset minted;
@@ -207,9 +213,9 @@ Theorem C20_views_pure :
      exists f1 f2 fv,
        Farm.pay_all f c ((n0, x0) :: adds) = Ok f1 /\ Farm.settle f1 blk = Ok f2 /\
        QFarm.query_cache f blk = Ok fv /\ FarmInv.same_but_toks fv f2) /\
-  (forall s blk ep c x arps b s' o,
-     QStk.claim s blk ep c x arps b = Ok (s', o) ->
-     exists s1 s2 r, QStk.query_cache s blk = Ok s1 /\ Staking.pay s1 r b = Ok s2 /\
+  (forall s blk ep c x arps bo s' o,
+     QStk.claim s blk ep c x arps bo = Ok (s', o) ->
+     exists s1 s2 r, QStk.query_cache s blk = Ok s1 /\ Staking.pay s1 r (bo c) = Ok s2 /\
                      s' = Staking.bump s2 /\ o = [Staking.s_next s2; x; r]).
 Proof. exact views_pure. Qed.
 Print Assumptions C20_views_pure.
@@ -247,9 +253,13 @@ Example C20_farm_nonvacuous :
 Proof. vm_compute. repeat split. Qed.
 
 Example C20_staking_nonvacuous :
-  match QStk.claim StkQ.f3_state 30 12 2 100000000 37500000 1041, QStk.calc_rewards StkQ.f3_state 30 100000000 37500000 with
-  | Ok (_, [_; _; paid]), Ok v => v = 3750 /\ paid = 4791
-  | _, _ => False
+  let bo := fun u => if u =? 2 then 1041 else 0 in
+  match QStk.claim StkQ.f3_state 30 12 2 100000000 37500000 bo,
+        QStk.calc_rewards StkQ.f3_state 30 100000000 37500000 2 None bo,
+        QStk.calc_rewards StkQ.f3_state 30 100000000 37500000 1 (Some 2) bo,
+        QStk.calc_rewards StkQ.f3_state 30 100000000 37500000 1 None bo with
+  | Ok (_, [_; _; paid]), Ok v, Ok v', Ok w => paid = 4791 /\ v = 4791 /\ v' = 4791 /\ w = 3750
+  | _, _, _, _ => False
   end.
 Proof. vm_compute. repeat split. Qed.
 
